@@ -13,8 +13,8 @@ python3 - "$id" "$prop" "$dir/$which.md" <<'PY'
 import json,sys
 id,prop,md=sys.argv[1:4]
 txt=open(md).read().strip()
-json.dump(dict(seed=id, property=prop, round=3, author="sub-agent (property text + scratch worktree only)", what_it_changes=txt.split("\n")[0][:400],
+json.dump(dict(seed=id, property=prop, round=int(__import__('os').environ.get('ROUND','3')), author="sub-agent (property text + scratch worktree only)", what_it_changes=txt.split("\n")[0][:400],
                needs_to_manifest="see notes.md", confirmed_by="vf/confirm_seed.sh", confirmation=open('/verif/seeded/%s/confirm.txt'%id).read(), also_check=[]),
           open('/verif/seeded/%s/meta.json'%id,'w'), indent=1)
 PY
-cd /verif && python3 vf/seed_eval.py $id 2>&1 | tail -1 | cut -c1-300
+cd /verif && SEV_WT=/tmp/sev_$id SEV_OUT=/tmp/seed_eval_$id.json python3 vf/seed_eval.py $id 2>&1 | tail -1 | cut -c1-300
